@@ -3,9 +3,9 @@
    theories/Flow_proofs.v.  [run_flow] = flow_prepare_event_data ; flow_extraction ; flow_data_cleanup over a whole
    stream followed by the drain of CollectiveGroupingContext.  All statements hold for arbitrary streams / queues
    (no size bound); [Ok] excludes exactly the runs in which the real code raises. *)
-From Coq Require Import ZArith QArith List String Permutation Lia.
+From Coq Require Import ZArith QArith List String Ascii Permutation Lia.
 Import ListNotations.
-From AiuModel Require Import Base Flow Flow_proofs.
+From AiuModel Require Import Base Flow Flow_proofs SyncTag.
 Local Open Scope Z_scope.
 
 (* (1) every exported flow id occurs on exactly one 's' and one 'f' (or on none) and both carry the same name.
@@ -107,6 +107,24 @@ Theorem C09_no_helpers :
     run_flow es = Ok (c, out) -> Forall (fun o => o_ph o <> "F"%string) out.
 Proof. exact run_flow_clean. Qed.
 Print Assumptions C09_no_helpers.
+
+(* (9) the sync tag is read exactly, for EVERY event name of the shape  <front> [sync=<tag>]<rest>  whose front has no
+   opening bracket and whose tag has no closing bracket - whatever follows (a size tag "[65536B]", a phase word, more
+   brackets).  Matching sends and receives compares these tags for equality; with the greedy pattern that the repair
+   74a044f replaced, the statement was false for rest = " [65536B] DmaI" (the receive's tag came out as "T] [65536B"). *)
+Theorem C09_sync_tag_read_exactly :
+  forall front tag rest : string,
+    has_char "["%char front = false -> has_char "]"%char tag = false ->
+    find_sync (front ++ " [sync=" ++ tag ++ "]" ++ rest)%string = Some tag.
+Proof. exact find_sync_reads_the_tag. Qed.
+Print Assumptions C09_sync_tag_read_exactly.
+
+Example C09_sync_tag_size_behind :
+  find_sync "SenRdmaRecv_52394 [sync=AllReduce_all_reduce_10_s0_r1_0] [65536B] DmaI"%string
+  = Some "AllReduce_all_reduce_10_s0_r1_0"%string /\
+  find_sync "SenRdmaRecv_52394 [65536B] [sync=AllReduce_all_reduce_10_s0_r1_0] DmaI"%string
+  = Some "AllReduce_all_reduce_10_s0_r1_0"%string.
+Proof. split; vm_compute; reflexivity. Qed.
 
 (* ---------------------------------------------------------------- non-vacuity *)
 (* a two-rank chain all-reduce as it reaches flow_prepare_event_data, in global ts order *)
